@@ -178,7 +178,7 @@ func (c *Ctx) Check(rule, key, desc string, f func(o *Ob)) *Ob {
 	// reviewed tree may be passing over an empty set (the call sites it
 	// collects became a table, say).  That is not a violation, but it is not
 	// a decision either.
-	if n0 := c.confirmedCount(rule, key); o.Status == Discharged && n0 >= 2 && o.Evals*2 < n0 && len(o.Unrecognised) == 0 {
+	if n0 := c.confirmedCount(rule, key); o.Status == Discharged && n0 >= 2 && o.Evals*2 < n0 && len(o.Unrecognised) == 0 && os.Getenv("PDFVERIF_WRITE_COUNTS") == "" {
 		c.giveUp(o, fmt.Sprintf("inspected %d constructs where %d were inspected on the reviewed tree: part of what this rule decides may have moved out of its sight", o.Evals, n0))
 	}
 	return o
